@@ -24,7 +24,7 @@ CHECKS = {
     "C12": dict(tech="TLA+ pipeline protocol spec (Pipeline.tla) model-checked by TLC incl. liveness; TLC-enumerated delivery orders imposed on the real worker pools via the verif gate hook; hook traces of real runs validated against the spec by TLC (TracePipeline); outputs of jittered / repeated / multi-thread runs judged by TLC (ObsC12); Go race detector for the data-race clause",
                 text="All interleavings of reader, workers, writer and Main for <=3 (thorough 4) records and <=2 (3) workers per command topology are explored; every delivery order "
                      "the model allows is forced on the real code and the output must be the single-threaded output; real traces must be behaviours of the spec.",
-                note="Bounded N and T in the model; large inputs only by seeded jitter. Two-stage commands are gated at the last stage only. The data-race clause is decided by the race detector (thorough tier), not by TLA+.",
+                note="Bounded N and T in the model; large inputs only by seeded jitter. Two-stage commands are gated at both stages (stage-1 hand-off order and delivery order from the model). The data-race clause is decided by the race detector (thorough tier), not by TLA+.",
                 ref="7 C12, 8"),
     "C17": dict(tech="TLC-exhaustive check of the Alphabet theory (MCAlphabet, 3375 codons, 32 characters) and TLC validation (ObsC17) of the tables dumped from the running code",
                 text="Finite and exhaustive: every one of the 3375 codons, all 32 accepted characters, all 256 byte values; the code's tables are compared entry by entry with an "
@@ -121,7 +121,7 @@ def main():
             "guard": "verif",
             "enable": "go build -tags verif (bin/check rebuilds gofasta and the harness from /repo's working tree on every run)",
             "baseline_off_cmd": "cd /repo && go test -mod=mod -vet=off -count=1 -timeout 25m ./...",
-            "source_commits": ["551d63f", "7f1fc12"],
+            "source_commits": ["551d63f", "7f1fc12", "174bb55"],
             "add_only": True,
         },
         "engines": [
